@@ -13,7 +13,7 @@
 (*     most significant differing component, Allows(level, diff) is        *)
 (*     written from the DOCUMENTATION of upgrade.Level ("the maximum       *)
 (*     semver level of upgrade allowed for a package: Major = all upgrades *)
-(*     are allowed, Minor = only upgrades up to minor (1.0.0 - 1.*.*)").   *)
+(*     are allowed, Minor = only upgrades up to minor (1.0.0 - 1.x.x)").   *)
 (*                                                                         *)
 (* (2) SCENARIO (setup actions): a universe of <= 3 packages below the     *)
 (*     root, each with a version menu out of VT, per-version dependency    *)
@@ -39,7 +39,7 @@ EXTENDS Integers, Sequences, FiniteSets, TLC, Json
 
 CONSTANTS Pkgs,       \* sequence of package names in dependency order: a package may only depend on later ones
           Family,     \* "npm-relax" | "maven-override" | "maven-update"
-          Menus,      \* set of version menus (subsets of 1..NV) a package may have
+          Menus,      \* per package (aligned with Pkgs): the set of version menus (subsets of 1..NV) it may have
           EdgeKinds,  \* requirement kinds on universe edges  (subset of {"pin","caret","tilde","latest"})
           RootKinds,  \* requirement kinds on manifest requirements
           EdgeModes,  \* subset of {"flat","rising","drop"}: how the requirement of the i-th version is anchored
@@ -358,7 +358,7 @@ Init == /\ sc = [menu |-> [p \in PkgSet |-> {}], rule |-> [pq \in Pairs |-> NoRu
         /\ run = EmptyRun
 
 SetupMenu == /\ pc.ph = "menu"
-             /\ \E m \in Menus :
+             /\ \E m \in Menus[pc.i] :
                   /\ sc' = [sc EXCEPT !.menu[Pkgs[pc.i]] = m]
                   /\ pc' = IF pc.i = Len(Pkgs) THEN [ph |-> "rule", i |-> 0] ELSE [pc EXCEPT !.i = pc.i + 1]
              /\ UNCHANGED run
@@ -384,7 +384,10 @@ SetupDirect == /\ pc.ph = "direct"
                           /\ Idx(p) > pc.i
                           /\ (pc.i = 0 => Idx(p) = 1)
                           /\ (g = "dev" => "nodev" \in OptSet /\ Idx(p) > 1)
-                          /\ \E at \in (IF k = "latest" THEN {Min(sc.menu[p])} ELSE {Nth(sc.menu[p], j) : j \in 1..(IF Cardinality(sc.menu[p]) > 1 THEN 2 ELSE 1)}) :
+                          /\ \E at \in (IF k = "latest" THEN {Min(sc.menu[p])}
+                                        ELSE {Nth(sc.menu[p], j) : j \in 1..(IF Cardinality(sc.menu[p]) > 1 THEN 2 ELSE 1)}
+                                             \* bulk update only: a range anchored above every known version (matches nothing)
+                                             \cup (IF Family = "maven-update" /\ k \in {"caret", "tilde"} /\ NV \notin sc.menu[p] THEN {NV} ELSE {})) :
                                sc' = [sc EXCEPT !.man.direct[p] = [kind |-> k, at |-> at], !.grp[p] = g]
                           /\ pc' = [pc EXCEPT !.i = Idx(p)]
                   \/ /\ NDirect >= 1
@@ -569,20 +572,23 @@ C12NoIntroduce == pc.ph = "done" /\ sc.opt.noIntro => \A k \in 1..Len(run.chosen
 
 -----------------------------------------------------------------------------
 (* ---------------------------- case emission ---------------------------- *)
-ReqJson(r) == [kind |-> r.kind, at |-> r.at]
+\* requirements are emitted as <<kind, at>>; only existing edges / manifest entries are listed
 CaseUniverse == [i \in 1..Len(Pkgs) |->
                    [name |-> Pkgs[i],
                     versions |-> [k \in 1..Cardinality(sc.menu[Pkgs[i]]) |->
                        LET vi == Nth(sc.menu[Pkgs[i]], k) IN
                        [v |-> vi, latest |-> (vi = LatestOf(sc.menu[Pkgs[i]])),
-                        deps |-> [j \in 1..Len(Pkgs) |-> [name |-> Pkgs[j], req |-> ReqJson(DepReq(sc, Pkgs[i], vi, Pkgs[j]))]]]]]]
-Case == [fam |-> "Remediation", family |-> Family, universe |-> CaseUniverse,
-         manifest |-> [i \in 1..Len(Pkgs) |-> [name |-> Pkgs[i], req |-> ReqJson(sc.man.direct[Pkgs[i]]), group |-> sc.grp[Pkgs[i]]]],
+                        deps |-> {<<j, Pkgs[j], DepReq(sc, Pkgs[i], vi, Pkgs[j]).kind, DepReq(sc, Pkgs[i], vi, Pkgs[j]).at>> :
+                                    j \in {x \in 1..Len(Pkgs) : DepReq(sc, Pkgs[i], vi, Pkgs[x]).kind # "none"}}]]]]
+Case == [family |-> Family, universe |-> CaseUniverse,
+         manifest |-> {<<i, Pkgs[i], sc.man.direct[Pkgs[i]].kind, sc.man.direct[Pkgs[i]].at, sc.grp[Pkgs[i]]>> :
+                         i \in {x \in 1..Len(Pkgs) : sc.man.direct[Pkgs[x]].kind # "none"}},
          vulns |-> [i \in 1..Len(sc.vulns) |-> sc.vulns[i]],
-         levels |-> [i \in 1..Len(Pkgs) + 1 |-> IF i > Len(Pkgs) THEN <<"*", sc.levels["*"]>> ELSE <<Pkgs[i], sc.levels[Pkgs[i]]>>],
+         levels |-> {<<p, sc.levels[p]>> : p \in {x \in PkgSet \cup {"*"} : sc.levels[x] # "-"}},
          opt |-> sc.optname,
          model |-> [patches |-> Cardinality(run.patches), chosen |-> Len(run.chosen), vulns1 |-> Cardinality(run.vs1),
-                    vulns2 |-> Cardinality(run.vs2), error |-> (pc.ph = "error")],
+                    vulns2 |-> Cardinality(run.vs2), error |-> (pc.ph = "error"),
+                    updates |-> Cardinality(UNION {p.ups : p \in run.patches}), intro |-> (\E p \in run.patches : p.intro # {})],
          devs |-> {d \in {"C11-relax-prerelease-caret"} : \E p \in run.patches : p.viaPre /\ \E u \in p.ups : ~UpdateOK(p, u)}
                   \cup {d \in {"C12-explicit-introduced"} : AppliedOne /\ LET p == run.order[run.chosen[1]] IN
                                                              sc.opt.explicit # {} /\ ~(p.intro \subseteq sc.opt.explicit)}
